@@ -29,8 +29,8 @@ import (
 // The probes only wait, they run next to the other families.
 
 type roptsCase struct {
-	Kind  string   `json:"kind"` // "ropts"
-	Opts  []string `json:"opts"` // bp1 | bp0 | uo1 | uo0 | e
+	Kind  string   `json:"kind"`            // "ropts"
+	Opts  []string `json:"opts"`            // bp1 | bp0 | uo1 | uo0 | e
 	Probe string   `json:"probe,omitempty"` // "" (configuration only) | value | collection
 }
 
@@ -91,12 +91,11 @@ const roptsVerdictAfter = 2600 * time.Millisecond // three writes that have not 
 
 func (c roptsCase) runCode() (obs roptsObs) {
 	opts := c.options()
-	panicked := lib.Catch(func() {
+	if panicked, msg := lib.Catch(func() {
 		rr := resource.ComputeReadConfig(opts...)
 		obs.BP, obs.UO = rr.Backpressure, rr.UpdatesOnly
-	})
-	if panicked != "" {
-		obs.Stuck = "panic:" + panicked
+	}); panicked {
+		obs.Stuck = "panic:" + msg
 		return obs
 	}
 	if c.Probe == "" {
@@ -245,13 +244,15 @@ func (r *roptsRun) finish(res *lib.Result, drv *lib.Driver) {
 		return
 	}
 	<-r.done
+	reruns := 0
 	for i, c := range r.cases {
 		obs := r.obss[i]
 		model := ans[i]
 		if c.Probe == "" {
 			model = stripPath(model)
-		} else if obs.answer() != model {
-			obs = c.runCode() // a stall of a loaded machine does not repeat
+		} else if obs.answer() != model && reruns < 2 {
+			reruns++
+			obs = c.runCode() // a stall of a loaded machine does not repeat (a broken tree differs every time: two re-runs are enough)
 		}
 		tie.Record(c.key(), len(c.Opts) > 1, c, model, obs.answer())
 		tie.Count("probe=" + c.Probe)
